@@ -82,7 +82,11 @@ theorem updateCore_decomp (s s' : VSet) (u d : List Val) (allow : Bool)
       verifyUpdates u s.vals removed = some tvp ∧ totalPanics v2 = false ∧
       s'.vals = sortBy lePower (shiftByAvg (rescale v2 (windowFactor * totalPower v2))) ∧
       SAddr v2 ∧ v2 ≠ [] ∧ (∀ x ∈ v2, 0 < x.power) ∧
-      (∀ x ∈ v2, x ∈ computeNewPriorities u s.vals tvp ∨ x ∈ s.vals) := by
+      (∀ x ∈ v2, x ∈ computeNewPriorities u s.vals tvp ∨ x ∈ s.vals) ∧
+      (∀ x, x ∈ v2 ↔
+        ((x ∈ computeNewPriorities u s.vals tvp ∨
+          (x ∈ s.vals ∧ ∀ w ∈ computeNewPriorities u s.vals tvp, w.addr ≠ x.addr)) ∧
+         ∀ z ∈ d, z.addr ≠ x.addr)) := by
   unfold updateCore at h
   split at h
   · cases h
@@ -186,19 +190,34 @@ theorem updateCore_decomp (s s' : VSet) (u d : List Val) (allow : Bool)
               obtain ⟨x, hx, hxz⟩ := hwit
               have : x ∈ v2 := hv2def ▸ (hspec x hx).mpr hxz
               intro e; rw [e] at this; cases this
-            refine ⟨removed, tvp, v2, hrem, hver, by simpa using hnp, ?_, hv2s, hv2ne, hv2pos, ?_⟩
+            refine ⟨removed, tvp, v2, hrem, hver, by simpa using hnp, ?_, hv2s, hv2ne, hv2pos, ?_, ?_⟩
             · rw [← hv2def, ← hv1def]
             · intro x hx
               rcases m2 x (hv2sub.subset hx) with h1 | ⟨h1, _⟩
               · left; rw [hu'def]; exact h1
               · right; exact (hesmem x).mp h1
+            · intro x
+              rw [hu'def]
+              constructor
+              · intro hx
+                have hx1 := hv2sub.subset hx
+                refine ⟨?_, (hspec x hx1).mp hx⟩
+                rcases m2 x hx1 with h1 | ⟨h1, h2⟩
+                · left; exact h1
+                · right; exact ⟨(hesmem x).mp h1, h2⟩
+              · intro ⟨hmem, hnd⟩
+                have hx1 : x ∈ v1 := by
+                  rcases hmem with h1 | ⟨h1, h2⟩
+                  · exact m3 x h1
+                  · exact m4 x ((hesmem x).mpr h1) h2
+                exact (hspec x hx1).mpr hnd
 
 /-- everything after `processChanges` yields a well-formed list -/
 theorem updateCore_wf (s s' : VSet) (u d : List Val) (allow : Bool)
     (hpre : PreWF s.vals) (hu : SAddr u) (hd : SAddr d)
     (hup : ∀ v ∈ u, 0 < v.power) (hdisj : ∀ y ∈ u, ∀ z ∈ d, y.addr ≠ z.addr)
     (h : updateCore s u d allow = (s', none)) : WF s'.vals := by
-  obtain ⟨removed, tvp, v2, _, _, hnp, hvals, hv2s, hv2ne, hv2pos, _⟩ :=
+  obtain ⟨removed, tvp, v2, _, _, hnp, hvals, hv2s, hv2ne, hv2pos, _, _⟩ :=
     updateCore_decomp s s' u d allow hpre hu hd hup hdisj h
   rw [hvals]
   -- the remaining steps keep addresses and powers
